@@ -130,6 +130,19 @@ def live(chk, wd, binary, gen):
     scens = suites.record_scenarios()
     if chk.quick:
         scens = [(n, sc) for n, sc in scens if not n.endswith("/cid4/pad0")]
+    # handshake variants whose transcript differs: client authentication (Certificate / CertificateVerify of the client enter
+    # both Finished values), extended master secret disabled, hello verification off, fragmented flights
+    nocid = {"cidC": -1, "cidS": -1}
+    E = "TLS_ECDHE_ECDSA_WITH_AES_128_GCM_SHA256"
+    scens += [("clientauth12", dict(ver="12", suite=E, helloVerify=True, clientAuth=4, clientCert=True, verify=True, **nocid)),
+              ("clientauth12-request-only", dict(ver="12", suite=E, helloVerify=True, clientAuth=1, clientCert=True, **nocid)),
+              ("clientauth12-nocert", dict(ver="12", suite=E, helloVerify=True, clientAuth=1, clientCert=False, **nocid)),
+              ("clientauth12-rsa-noems", dict(ver="12", suite="TLS_ECDHE_RSA_WITH_AES_128_GCM_SHA256", helloVerify=False, auth="rsa", clientAuth=2, clientCert=True, emsC=2, emsS=2, **nocid)),
+              ("noems12", dict(ver="12", suite=E, helloVerify=True, emsC=2, emsS=2, **nocid)),
+              ("psk-noems12", dict(ver="12", helloVerify=False, auth="psk", suite="TLS_PSK_WITH_AES_128_GCM_SHA256", emsC=2, emsS=2, **nocid)),
+              ("frag12", dict(ver="12", suite=E, helloVerify=True, mtu=300, **nocid)),
+              ("clientauth13", dict(ver="13", suite="TLS_AES_128_GCM_SHA256", helloVerify=True, clientAuth=4, clientCert=True, verify=True, curvesC=[29], curvesS=[29], **nocid)),
+              ("nohrr13", dict(ver="13", suite="TLS_AES_128_GCM_SHA256", helloVerify=False, curvesC=[29], curvesS=[29], **nocid))]
     rows = gen["suite12"].printed + gen["suite13"].printed + [{"name": n, "scen": sc} for n, sc in scens]
     rc, txt, inflight, res = run_harness(chk, binary, "TestVerifC10Live", rows, wd, "live", timeout=1200)
     if rc != 0 or not res or not res[-1].get("summary"):
